@@ -77,13 +77,20 @@ def classify(t, w, ms, bad):
     for b in sorted(set(bad)):
         if b == "incomplete":
             # is every uncovered greedy success shadowed by a reported match that lies inside its span?
-            inner = True
+            # the listed known finding: every uncovered greedy success is shadowed by a reported match that lies inside its span AND ends before it would
+            # (an attempt is discarded when a later-starting attempt completes first). A reported match that ends exactly where the uncovered one would end is a
+            # different failure (the leftmost of two attempts ending together must win) and is classified separately.
+            inner, same_end = True, False
             for s0 in range(n):
                 e0 = pat.ref_greedy(t, w, s0)
                 if e0 is not None and not any(a <= s0 < b_ for (a, b_, _) in ms):
-                    if not any(s0 < a and b_ <= e0 for (a, b_, _) in ms):
+                    if any(s0 < a and b_ < e0 for (a, b_, _) in ms):
+                        pass
+                    elif any(s0 < a and b_ == e0 for (a, b_, _) in ms):
+                        same_end = True
+                    else:
                         inner = False
-            kinds.append("incomplete:inner-match-shadows-outer" if inner else "incomplete:other")
+            kinds.append("incomplete:other" if not inner else "incomplete:later-start-with-the-same-end-wins" if same_end else "incomplete:inner-match-shadows-outer")
         elif b == "overlap-or-order":
             kinds.append("overlap-or-order" + (":at-end-of-input" if any(e == n for (_, e, _) in ms) else ""))
         else:
